@@ -350,7 +350,16 @@ def run_tasks(tasks, prop, tier, seed, nproc=None):
                     done[t.name] = {"error": "worker died", "wall": time.time() - st}
                 p.join()
             elif not p.is_alive():
-                done[t.name] = {"error": "worker died without a result (exit %s)" % p.exitcode, "wall": time.time() - st}
+                # the child may have sent its result and exited between the poll above and this test: look once more
+                # before declaring it dead (otherwise a passing task becomes an internal error under load)
+                got = None
+                try:
+                    if pc.poll(0.5):
+                        got = pc.recv()
+                except (EOFError, OSError):
+                    got = None
+                p.join()
+                done[t.name] = got if got is not None else {"error": "worker died without a result (exit %s)" % p.exitcode, "wall": time.time() - st}
             elif time.time() - st > t.timeout * (3 if tier == "thorough" else 1):
                 p.kill()
                 p.join()
